@@ -448,7 +448,7 @@ def main(argv=None):
                 "components": prop.components,
                 "known_findings_seen": sorted(known_seen),
                 "workers": workers,
-                "exhaustive": False,
+                "exhaustive": bool(getattr(prop, "is_exhaustive", lambda t, tr: False)(tier, truncated)),
             },
             "assumptions": prop.assumptions,
             "wall_s": round(wall, 2),
